@@ -218,6 +218,11 @@ func checkResult(res eng.Result, exp Expect) error {
 	if res.Panic != nil {
 		return fmt.Errorf("panic escaped the API: %v", res.Panic)
 	}
+	if res.Drift != "" {
+		// values are values: what a host function was handed does not change
+		// because the script goes on
+		return fmt.Errorf("%s", res.Drift)
+	}
 	if exp.Unspec {
 		return nil
 	}
